@@ -1011,7 +1011,7 @@ def layout_rule(crate, prop, rule="C04.R1"):
         late = [k for k, blk in seq if blk in after and blk != kinds["newline"]]
         if late:
             r.fail(prop, "layout-after-newline export_to_string", "writes after the final newline: %s" % late, b.file(), b.line())
-    g = crate.body("export::generate_decl")
+    g = crate.ibody("export::generate_decl")
     if g is None:
         r.fail(prop, "anchor-missing generate_decl", "not found")
         return r
